@@ -20,7 +20,9 @@ EXPLANATION = (
     "siblings). R02.5: correction descriptors are counted len(distinct "
     "order-canonical atom sets). R02.6: canonical group naming (rules of "
     "C19) and the matcher/reader functions unchanged in normal form from "
-    "their reviewed references.")
+    "their reviewed references. D02.7-10 (shipped schemes): remaps chain-"
+    "free, patterns pairwise distinct, centre name = neighbour name, "
+    "neighbour atoms of centre patterns carry the `?` suffix.")
 NOT_DECIDED = ("what RDKit's substructure search and Kekule/aromatic "
                "perception return for a molecule; whether a pattern means "
                "what its author intended")
